@@ -290,6 +290,17 @@ class C17Executor(Executor):
             if isinstance(hi, VInt) and hi.const() is not None and hi.const() >= 0:
                 return [(st, VExt("Bytes", G.BHEAD(base.t, z3.IntVal(hi.const()))))]      # round 7: x[:k], a function of x (never x itself)
             return [(st, VExt("Bytes"))]          # some other part of the bytes: not the document any more
+        o = self._ol(st, base)
+        if o is not None and sl.step is None:
+            # round 7: a slice of a list of symbolic length is SOME list of the same kind -- not the list itself
+            for b_ in (sl.lower, sl.upper):
+                if b_ is not None:
+                    self.ev(b_, st)
+            v, blen = mk_olist(self, st, fresh_name("slice"), o.data["ekind"])
+            st.heap[v.ref].fresh = True
+            st.heap[v.ref].data["slice_of"] = base.ref
+            st.assume(z3.And(blen >= 0, blen <= o.data["blen"] + len(o.data["tail"])))
+            return [(st, v)]
         return super().get_slice(st, base, sl, node)
 
     def _pure_comprehension(self, n):
@@ -343,10 +354,34 @@ class C17Executor(Executor):
         return super().call(st, f, args, kwargs, node)
 
     def e_GeneratorExp(self, n, st):
-        return self._opaque_comp(n, st) or super().e_GeneratorExp(n, st)
+        return self._str_map_comp(n, st) or self._opaque_comp(n, st) or super().e_GeneratorExp(n, st)
 
     def e_ListComp(self, n, st):
-        return self._opaque_comp(n, st) or super().e_ListComp(n, st)
+        return self._str_map_comp(n, st) or self._opaque_comp(n, st) or super().e_ListComp(n, st)
+
+    def _str_map_comp(self, n, st):
+        """round 7: `[x.strip() for x in <list of str of symbolic length>]` -- a total str method on every element: again a list of
+        str; when the source list is a known function of a text (`text.split(sep)`), the result is one too (`of`)."""
+        if len(n.generators) != 1 or n.generators[0].ifs or n.generators[0].is_async or not isinstance(n.generators[0].target, ast.Name):
+            return None
+        e = n.elt
+        if not (isinstance(e, ast.Call) and isinstance(e.func, ast.Attribute) and isinstance(e.func.value, ast.Name)
+                and e.func.value.id == n.generators[0].target.id and not e.args and not e.keywords
+                and e.func.attr in ("strip", "lstrip", "rstrip", "lower", "upper", "casefold")):
+            return None
+        r = self.ev(n.generators[0].iter, st)
+        if len(r) != 1:
+            return None
+        s2, it = r[0]
+        o = self._ol(s2, it)
+        if o is None or o.data["ekind"] != "str" or not all(isinstance(x, VStr) for x in o.data["tail"]):
+            return None
+        v, blen = mk_olist(self, s2, fresh_name("mapped"), "str")
+        s2.heap[v.ref].fresh = True
+        s2.assume(blen == o.data["blen"] + len(o.data["tail"]))
+        if o.data.get("of") is not None and not o.data["tail"]:
+            s2.heap[v.ref].data["of"] = STR_MAP(z3.StringVal(e.func.attr), o.data["of"])
+        return [(s2, v)]
 
     def on_yield(self, st, v, node):
         """A yield inside a loop that is cut by an invariant is invisible in the function's final state: the contract's
@@ -603,9 +638,17 @@ def m_lower(ex, st, args, kwargs, node):
     return [(st, VStr(c.lower()) if c is not None else VStr(LOWER(s.t)))]
 
 
+STR_SPLIT = z3.Function("str_split_pieces", S, S, S)        # the pieces of text.split(sep), as one opaque value
+STR_MAP = z3.Function("str_pieces_mapped", S, S, S)         # [piece.<method>() for piece in pieces]
+STR_JOIN = z3.Function("str_join_pieces", S, S, S)          # sep.join(pieces)
+RE_SUB = z3.Function("re_sub", S, S, S, S)                  # <compiled str regex>.sub(repl, text)
+
+
 def m_split(ex, st, args, kwargs, node):
     v, blen = mk_olist(ex, st, fresh_name("split"), "str")
     st.heap[v.ref].fresh = True
+    if len(args) == 2 and not kwargs and isinstance(args[0], VStr) and isinstance(args[1], VStr):
+        st.heap[v.ref].data["of"] = STR_SPLIT(args[0].t, args[1].t)
     st.assume(blen >= (1 if len(args) >= 2 and not isinstance(args[1], VNoneT) else 0))     # with a separator: never empty
     return [(st, v)]
 
@@ -614,9 +657,52 @@ def m_join(ex, st, args, kwargs, node):
     it = args[1]
     o = st.heap.get(it.ref) if isinstance(it, VRef) else None
     if o is not None and o.kind == "olist" and o.data["ekind"] == "str" and all(isinstance(x, VStr) for x in o.data["tail"]):
-        return [(st, VStr(z3.String(fresh_name("join"))))]
+        if o.data.get("of") is not None and not o.data["tail"] and isinstance(args[0], VStr):
+            return [(st, VStr(STR_JOIN(args[0].t, o.data["of"])))]
+        jv = z3.String(fresh_name("join"))
+        # round 7 ghost event: WHICH list was joined (reference, length, appended tail, separator) -> `get_text` contract
+        st.ghost["joins"] = st.ghost.get("joins", ()) + ((jv, it.ref, o.data["blen"], tuple(o.data["tail"]), args[0].const() if isinstance(args[0], VStr) else None),)
+        return [(st, VStr(jv))]
     ex.exc_any(st.fork(), f"{ex.loc(node)} join of a list not known to hold only str")
     return [(st, VStr(z3.String(fresh_name("join"))))]
+
+
+def ext_sort_(name):
+    from pyvc.values import ext_sort
+    return ext_sort(name)
+
+
+RE_ID = z3.Function("regex_id", ext_sort_("StrRe"), S)
+
+
+def get_text_regexes(repo=None):
+    """Module-level `NAME = re.compile(<str constant>, ...)` of the EPUB module that `get_text` uses as `NAME.sub(<str constant>, x)`
+    and that nothing else in the module uses (so the model below is seen by the get_text contract only)."""
+    mod = loader.module(EPUB, repo)
+    fn = mod.functions.get(f"{ECLS}.get_text")
+    if fn is None:
+        return []
+    used = {x.func.value.id for x in ast.walk(fn) if isinstance(x, ast.Call) and isinstance(x.func, ast.Attribute) and x.func.attr == "sub"
+            and isinstance(x.func.value, ast.Name) and len(x.args) == 2 and isinstance(x.args[0], ast.Constant) and isinstance(x.args[0].value, str)}
+    out = []
+    for nm in sorted(used):
+        v = mod.assigns.get(nm)
+        if not (isinstance(v, ast.Call) and ast.unparse(v.func) in ("re.compile", "compile") and v.args and isinstance(v.args[0], ast.Constant)
+                and isinstance(v.args[0].value, str)):
+            continue
+        elsewhere = [x for x in ast.walk(mod.tree) if isinstance(x, ast.Name) and x.id == nm and isinstance(x.ctx, ast.Load)
+                     and not (fn.lineno <= x.lineno <= fn.end_lineno)]
+        if not elsewhere:
+            out.append(nm)
+    return out
+
+
+def m_re_sub(ex, st, obj, args, kwargs, node):
+    """<compiled str pattern>.sub(repl, text) with a constant replacement without group references: total, a function of the text."""
+    if len(args) == 2 and not kwargs and all(isinstance(a, VStr) for a in args) and args[0].const() is not None and "\\" not in args[0].const():
+        return [(st, VStr(RE_SUB(RE_ID(obj.t), args[0].t, args[1].t)))]
+    ex.exc_any(st.fork(), f"{ex.loc(node)} regex sub")
+    return [(st, VStr(z3.String(fresh_name("re_sub"))))]
 
 
 def install(reg):
@@ -626,6 +712,12 @@ def install(reg):
     reg.method_models[("HTMLParserBase", "__init__")] = lambda ex, st, obj, a, k, n: [(st, NONE)]
     reg.ext_models["str.lstrip"] = lambda ex, st, args, kwargs, node: [(st, VStr(LSTRIP(args[0].t)))] if len(args) == 1 else \
         [(st, VStr(z3.String(fresh_name("lstrip"))))]
+    try:
+        for nm in get_text_regexes():
+            reg.module_consts[(EPUB, nm)] = VExt("StrRe", z3.Const("regex:" + nm, ext_sort_("StrRe")))
+        reg.method_models[("StrRe", "sub")] = m_re_sub
+    except Exception:  # noqa
+        pass
     if hint_pattern() is not None:
         reg.module_consts[(MSG, hint_regex_name())] = VExt("HintRe")
         reg.method_models[("HintRe", "search")] = m_hint_search
@@ -801,6 +893,37 @@ def epub_inv(c, rho, st=None):
     return coupling(sd.t, d.get(tf, MISSING) if tf else MISSING, rho)
 
 
+EPUB_SINKS = ("text_parts", "_current_cell", "_title")
+
+
+def str_leaves(t, acc=None):
+    """Uninterpreted String constants a term is built from (string literals are not leaves)."""
+    acc = set() if acc is None else acc
+    if z3.is_const(t):
+        if t.decl().kind() == z3.Z3_OP_UNINTERPRETED and t.sort() == S:
+            acc.add(t)
+        return acc
+    for ch in t.children():
+        str_leaves(ch, acc)
+    return acc
+
+
+def get_text_whole(c):
+    if getattr(c.ex, "entry_ctx", None) is None or c.args is not c.ex.entry_ctx.args:
+        return z3.BoolVal(True)            # at a call site: nothing to add (the clause inspects the body's own result term)
+    r = c.result
+    if not isinstance(r, VStr):
+        return z3.BoolVal(False)
+    tp = c.entry.obj(c.args["self"].ref).data.get(EPUB_SINKS[0])
+    o = c.entry.heap.get(tp.ref) if isinstance(tp, VRef) else None
+    if o is None or o.kind != "olist":
+        raise Unsupported("the list of stored parts was not found (renamed?)")
+    good = [j for j in c.st.ghost.get("joins", ())
+            if j[1] == tp.ref and j[2].eq(o.data["blen"]) and j[3] == tuple(o.data["tail"]) and j[4] is not None and j[4].strip() == ""]
+    lv = str_leaves(r.t)
+    return z3.BoolVal(len(lv) == 1 and any(j[0].eq(next(iter(lv))) for j in good))
+
+
 def html_requires(c):
     d = c.st.obj(c.args["self"].ref).data
     r = need(HTML, HCLS, c.ex.module.repo, "depth", "root", "stack", "last")
@@ -845,7 +968,6 @@ def html_data_stored(c):
     return b.t == z3.Concat(a.t, c.args["data"].t)
 
 
-EPUB_SINKS = ("text_parts", "_current_cell", "_title")
 
 
 def epub_data_stored(c):
@@ -952,6 +1074,17 @@ def contracts(reg):
                     isinstance(c.result, VRef) and c.result.ref == c.entry.obj(c.args["self"].ref).data[need(HTML, HCLS, c.ex.module.repo, "root")["root"]].ref)),
                  ("pure", lambda c: frame(c, ()))],
         modifies=("self",),
+    ))
+    # round 7: EPUB get_text (the observation point "chapter text") under a symbolic contract -- total, pure, and its result is a
+    # function of the join of the WHOLE list of stored parts (not a slice / filter of it) and of nothing else
+    out.append(FnContract(
+        target=f"{EPUB}::{ECLS}.get_text",
+        params=[("self", epub_self())] + GHOST,
+        requires=lambda c: epub_inv(c, RHO, c.st),
+        ensures=[("I-preserved", lambda c: epub_inv(c, RHO)),
+                 ("pure-(stores-nothing,-a-second-call-gives-the-same-text)", lambda c: frame(c, ())),
+                 ("text-is-a-function-of-the-join-of-the-whole-list-of-stored-parts-and-of-nothing-else", get_text_whole)],
+        modifies=("self",), total=True,
     ))
     out.append(looks_like_html_contract())
     from contracts import C17_glue
